@@ -37,6 +37,11 @@ async def expect_async(expecter, timeout=None):
         if transport.is_closing():
             # The stream ended while no call was outstanding.
             return expecter.eof()
+        if expecter.spawn.closed:
+            # Closed by the application since the transport was set up: its
+            # descriptor number may belong to another file by now, reading
+            # from it again would take that file's data.
+            raise ValueError('I/O operation on closed file.')
         transport.resume_reading()
     try:
         return await asyncio.wait_for(pattern_waiter.fut, timeout)
